@@ -30,7 +30,11 @@ ALPHA = {
     "gbk": {"ascii_lo": "1 ", "ascii_hi": "a@~", "dbl_hi": "字界亐", "dbl_lo": "丂丄"},
     "iso8859-1": {"ascii": "a~", "space": " ", "latin1": "éÿ£"},
 }
-MODE_OF = {"utf-8": "utf8", "euc-jp": "wide", "big5": "wide", "gbk": "wide", "iso8859-1": "narrow", "ascii": "narrow", "euc-kr": "wide"}
+MODE_OF = {"utf-8": "utf8", "euc-jp": "wide", "big5": "wide", "gbk": "wide", "iso8859-1": "narrow", "ascii": "narrow", "euc-kr": "wide",
+           "cp437": "narrow"}
+# encodings one input is read under in the "switch" histories (cp437: a single-byte encoding in which every byte >= 0x20 is a
+# printable character of one column, so every byte string without control characters is a text there)
+SWITCH_ENCS = ("utf-8", "cp437", "iso8859-1", "euc-jp", "gbk", "big5")
 DEC_CHARS = "◆▒␉␌␍␊°±␤␋┘┐┌└┼⎺⎻─⎼⎽├┤┴┬│≤≥π≠£·"
 
 INVALID_UTF8 = [b"\xc3", b"\xe5\xad", b"\xf0\x9f\x98", b"\xc3\x28", b"\xff\xfe", b"\x80\x80", b"\x80", b"a\x80", b"\xe5\xad\x97\xe5", b"\xc0\x80",
@@ -272,6 +276,170 @@ def sampled_events(t, rng, k):
 
 
 # ------------------------------------------------------------------------------------------------
+# "switch" histories: ONE process, ONE input (a byte string or a str), urwid.set_encoding() between the calls
+# ------------------------------------------------------------------------------------------------
+def view_of_bytes(bs, enc):
+    """The text the byte string `bs` is under `enc` (a Text), or None when it is not a text of the modelled domain there."""
+    import wcwidth
+
+    try:
+        s = bs.decode(enc)
+    except UnicodeDecodeError:
+        return None
+    if any(wcwidth.wcwidth(c) < 0 for c in s):      # control characters
+        return None
+    try:
+        t = Text(s, enc)
+    except tlc.MachineryError:
+        return None
+    if t.bs != bs:
+        return None
+    if t.mode == "narrow" and any(c["w"] != 1 or c["b"] != 1 for c in t.chars):
+        return None
+    if t.mode == "wide" and any(c["w"] != c["b"] for c in t.chars):     # half-width kana, three-byte EUC, ambiguous-width characters
+        return None
+    return t
+
+
+def view_of_str(s, enc):
+    """(Text of the str `s` under `enc` as apply_target_encoding sees it, is every character of it a character of `enc`)."""
+    t = Text(s, enc, keep_width=True)
+    strict = True
+    try:
+        strict = s.encode(enc) == t.bs
+    except UnicodeEncodeError:
+        strict = False
+    if strict and t.mode == "narrow":
+        strict = all(c["w"] == 1 and c["b"] == 1 for c in t.chars)
+    if strict and t.mode == "wide":
+        strict = all(c["w"] == c["b"] for c in t.chars)
+    return t, strict
+
+
+def ev_setenc(v, enc):
+    """The real urwid.set_encoding(enc); v: number of the view that becomes the active one."""
+    from urwid import util
+
+    c = Calls()
+    c(util.set_encoding, enc)
+    return {"op": "setenc", "v": v, "enc": enc, "got": str(c(util.get_encoding_mode, default="")), "exc": c.exc}
+
+
+def visit_events(t, rng, full, strict=True, encode=False):
+    """The calls made on one reading of the input while its encoding is the active one."""
+    n = len(t.s)
+    ev = []
+    if encode:
+        ev += [ev_enc(t, "str"), ev_enc(t, "bytes")]
+    if not strict:
+        return ev
+    if full and n <= 3:
+        return ev + text_events(t, max_col_extra=0)
+    pairs = [(i, j) for i in range(n + 1) for j in range(i, n + 1)]
+    if len(pairs) > 10:
+        pairs = [(0, n)] + rng.sample(pairs, 5 if not full else 12)
+    for i, j in pairs:
+        w = t.cum[j] - t.cum[i]
+        ev.append(ev_width(t, i, j))
+        ev.append(ev_pos(t, i, j, w))
+        if w:
+            ev.append(ev_pos(t, i, j, rng.randint(0, w + 1)))
+            sc = rng.randint(0, w - 1)
+            ev.append(ev_trim(t, i, j, sc, rng.randint(sc + 1, w)))
+        if i < j:
+            ev.append(ev_step(t, i, j))
+    for i in (range(n) if n <= 4 else rng.sample(range(n), 4)):
+        ev.append(ev_wide(t, i))
+        if t.mode == "utf8":
+            ev.append(ev_dec(t, i))
+        if t.mode == "wide":
+            ev.append(ev_wdb(t, rng.randint(0, i), t.offs[i] + rng.randrange(t.chars[i]["b"])))
+    if t.cum[n]:
+        sc = rng.randint(0, t.cum[n] - 1)
+        ev.append(ev_trimcs(t, sc, rng.randint(sc + 1, t.cum[n])))
+    return ev
+
+
+def switch_trace(spec):
+    """spec: {"same": "bytes"|"str", "raw": [byte...] | "cps": [code point...], "encs": [encoding, ...] the order of the
+    set_encoding calls (encodings come back), "seed", "full"} -> one history.  None when fewer than two readings exist."""
+    rng = random.Random(spec["seed"])
+    same = spec["same"]
+    order = list(spec["encs"])
+    names = list(dict.fromkeys(order))
+    if same == "bytes":
+        raw = bytes(spec["raw"])
+        texts = {enc: view_of_bytes(raw, enc) for enc in names}
+        strict = dict.fromkeys(names, True)
+    else:
+        s = "".join(chr(c) for c in spec["cps"])
+        pairs = {enc: view_of_str(s, enc) for enc in names}
+        texts = {enc: p[0] for enc, p in pairs.items()}
+        strict = {enc: p[1] for enc, p in pairs.items()}
+    names = [enc for enc in names if texts[enc] is not None]
+    if len(names) < 2:
+        return None
+    views = [{"enc": enc, "mode": texts[enc].mode, "chars": texts[enc].chars} for enc in names]
+    ev = []
+    for enc in order:
+        if enc not in names:
+            continue
+        ev.append(ev_setenc(names.index(enc) + 1, enc))
+        ev += visit_events(texts[enc], rng, spec.get("full", False), strict[enc], encode=same == "str")
+    tr = {"kind": "switch", "mode": "multi", "enc": "multi", "chars": [], "same": same, "views": views, "spec": spec, "ev": ev}
+    if same == "bytes":
+        tr["raw"] = list(raw)
+    return tr
+
+
+def switch_atoms():
+    """Pieces the byte strings of the switch histories are put together from, by origin."""
+    ascii_ = [b"a", b"1", b" ", b"@", b"~"]
+    utf8 = [c.encode("utf-8") for cls in ALPHA["utf-8"].values() for c in cls if ord(c) > 0x7F]
+    wide = [c.encode(enc) for enc in ("euc-jp", "big5", "gbk") for k, cls in ALPHA[enc].items() if k.startswith("dbl") for c in cls]
+    latin = [c.encode("iso8859-1") for c in ALPHA["iso8859-1"]["latin1"]]
+    # two bytes that are one character in UTF-8 (U+00A1..U+07FF) AND one double-width character in EUC-JP / GBK / Big5
+    dual = [bytes((lead, trail)) for lead in range(0xC2, 0xE0) for trail in range(0xA1, 0xC0)]
+    return {"ascii": ascii_, "utf8": utf8, "wide": wide, "latin": latin, "dual": dual}
+
+
+def switch_specs(rng, quick):
+    """The inputs and set_encoding orders of the switch histories (which readings exist is found out when they are recorded)."""
+    atoms = switch_atoms()
+    specs = []
+
+    def order_for(k):
+        encs = list(SWITCH_ENCS)
+        rng.shuffle(encs)
+        encs = encs[:k]
+        return encs + encs[:max(1, len(encs) - 1)]         # every encoding but the last comes back
+
+    def add_bytes(bs, k, full=False):
+        specs.append({"same": "bytes", "raw": list(bs), "encs": order_for(k), "seed": rng.randrange(1 << 30), "full": full})
+
+    pool = [a for k in ("utf8", "wide", "latin") for a in atoms[k]]
+    for a in pool:                                          # every multi-byte character of the alphabets on its own, and doubled
+        add_bytes(a, 6, full=not quick)
+        add_bytes(a + a, 4 if quick else 6)
+    for _ in range(30 if quick else 300):                   # dual characters with ASCII around / between them
+        parts = [rng.choice(atoms["dual"]) for _ in range(rng.randint(1, 2))]
+        if rng.random() < 0.6:
+            parts.insert(rng.randint(0, len(parts)), rng.choice(atoms["ascii"]))
+        add_bytes(b"".join(parts), 4 if quick else 6, full=not quick)
+    for _ in range(36 if quick else 600):                   # mixtures
+        parts = [rng.choice(rng.choice([atoms["ascii"], pool, pool, atoms["dual"]])) for _ in range(rng.randint(2, 3 if quick else 4))]
+        add_bytes(b"".join(parts), 4 if quick else 6)
+    # one str under several encodings (apply_target_encoding with and without the DEC special charset, widths of its encoded forms)
+    strs = ["a─b", "é", "字界", "aé£", "─│┼", "x字─", "£·°", "aa", DEC_CHARS[:5]]
+    charpool = "ab ~" + DEC_CHARS + "é£ÿ字界あ"
+    for _ in range(25 if quick else 300):
+        strs.append("".join(rng.choice(charpool) for _ in range(rng.randint(1, 4))))
+    for s in strs:
+        specs.append({"same": "str", "cps": [ord(c) for c in s], "encs": order_for(3 if quick else 5), "seed": rng.randrange(1 << 30), "full": False})
+    return specs
+
+
+# ------------------------------------------------------------------------------------------------
 # invalid input (beyond the property): raw byte strings
 # ------------------------------------------------------------------------------------------------
 def raw_traces(bs, mode, enc):
@@ -344,9 +512,9 @@ def table_boundaries():
 
 # ------------------------------------------------------------------------------------------------
 MC_INVS = ["Additive", "WidthStrBytesAgree", "RefPosOK", "PosStrBytesAgree", "NextPrev", "RefTrimOK", "TrimStrBytesAgree", "AsCodedTrimOK",
-           "AsCodedWidePosOK", "EncodeLaws"]
+           "AsCodedWidePosOK", "EncodeLaws", "ReadingsOfOneByteString"]
 MC_PINNED = ["PosPinned", "TrimPinned"]
-MC_WRONG = ["WrongPosAccepted", "WrongPosLateAccepted", "WrongPrevAccepted", "WrongTrimAccepted", "WrongTrimNoPadAccepted"]
+MC_WRONG = ["WrongPosAccepted", "WrongPosLateAccepted", "WrongPrevAccepted", "WrongTrimAccepted", "WrongTrimNoPadAccepted", "WrongStaleWidthAccepted"]
 
 
 def mc_cfg(maxlen, classes, invs):
@@ -375,7 +543,7 @@ def finish_models(chk, futs):
         if wv is None:
             chk.add_mc(name, r)
             if r.ok and name == "MC_StrUtil_laws_len3_pinned":
-                refuted += 6    # invariant WrongVariantsRefuted held: every wrong variant has a refuting text
+                refuted += 7    # invariant WrongVariantsRefuted held: every wrong variant has a refuting text
             if not r.ok:
                 chk.reject("C11.model." + str(r.violated), {"model": "StrUtil", "run": name}, {"tlc_trace": r.trace[-2:]})
         else:   # a deliberately wrong variant: TLC must refute it
@@ -433,6 +601,11 @@ def work(item):
                 ev = [ev_enc(t, "str"), ev_enc(t, "bytes")]
                 ev += [ev_enc(t, "str", "\x0e", "\x0f"), ev_enc(t, "str", "\x0f", "\x0e"), ev_enc(t, "bytes", "\x0e", ""), ev_enc(t, "str", "\x0e\x0e", "\x0f\x0f\x0e")]
                 out.append(t.trace(ev, "enc"))
+        elif kind == "switch":  # histories that change the encoding themselves (restored by the context manager above)
+            for spec in item[2]:
+                tr = switch_trace(spec)
+                if tr is not None:
+                    out.append(tr)
         elif kind == "raw":     # invalid / truncated input: beyond the property (DIVERGENCE only)
             for bs in item[2]:
                 out += raw_traces(bs, MODE_OF[enc], enc)
@@ -461,6 +634,8 @@ def work_items(chk, quick):
     texts = enc_texts(rng, quick)
     for enc in ("utf-8", "iso8859-1", "ascii", "euc-jp", "big5", "gbk"):
         items += [("enc", enc, texts[k:k + 500]) for k in range(0, len(texts), 500)]
+    specs = switch_specs(rng, quick)
+    items += [("switch", "utf-8", specs[k:k + 40]) for k in range(0, len(specs), 40)]
     for enc, pool in (("utf-8", INVALID_UTF8), ("euc-jp", INVALID_WIDE), ("big5", INVALID_WIDE)):
         extra = [bytes(rng.choice([0x61, 0x80, 0xBF, 0xC3, 0xE5, 0xF0, 0xA4, 0x40, 0x97]) for _ in range(rng.randint(1, 5))) for _ in range(20 if quick else 400)]
         items.append(("raw", enc, pool + extra))
@@ -481,10 +656,24 @@ def work_items(chk, quick):
     return items
 
 
-def _sig(tr, e, why):
-    sig = {"kind": tr["kind"], "mode": tr["mode"], "enc": tr["enc"], "op": e["op"], "exc": e.get("exc", "")}
-    if tr["kind"] in ("text", "enc"):
-        ws = [c["w"] for c in tr["chars"]]
+def _view_at(tr, l):
+    """switch histories: the reading that is active at event number l (1-based) - the one TLC judged the event against."""
+    if tr["kind"] != "switch":
+        return tr
+    v = 0
+    for e in tr["ev"][:l]:
+        if e["op"] == "setenc":
+            v = e["v"]
+    return tr["views"][v - 1] if v else {"mode": "none", "enc": "none", "chars": []}
+
+
+def _sig(tr, e, why, l=0):
+    vw = _view_at(tr, l)
+    sig = {"kind": tr["kind"], "mode": vw["mode"], "enc": vw["enc"], "op": e["op"], "exc": e.get("exc", "")}
+    if tr["kind"] == "switch":
+        sig["same"] = tr["same"]
+    if tr["kind"] in ("text", "enc", "switch"):
+        ws = [c["w"] for c in vw["chars"]]
         sig["has_wide"] = 2 in ws
         sig["has_zero_width"] = 0 in ws
     if tr["kind"] == "cps":
@@ -492,8 +681,11 @@ def _sig(tr, e, why):
     return sig
 
 
-def _replay_of(tr, e):
+def _replay_of(tr, e, l=0):
     rp = {"kind": tr["kind"], "mode": tr["mode"], "enc": tr["enc"], "event": e}
+    if tr["kind"] == "switch":      # the whole history is replayed: the verdict depends on the calls made before
+        vw = _view_at(tr, l)
+        rp.update(spec=tr["spec"], at=l, active={"enc": vw["enc"], "mode": vw["mode"], "cps": [c["cp"] for c in vw["chars"]]})
     if tr["kind"] in ("text", "enc"):
         rp["cps"] = [c["cp"] for c in tr["chars"]]
     if tr["kind"] == "raw":
@@ -509,7 +701,7 @@ def handle(chk, traces, res):
             chk.divergence(f"{why} [{tr['mode']}]", {"enc": tr["enc"], "raw": tr.get("raw"), "cps": [c["cp"] for c in tr["chars"]][:12],
                                                     "event": {k: v for k, v in e.items() if k not in ("parts", "out")}})
         else:
-            chk.reject("C11." + why, _sig(tr, e, why), _replay_of(tr, e))
+            chk.reject("C11." + why, _sig(tr, e, why, l), _replay_of(tr, e, l))
 
 
 class Coverage:
@@ -531,6 +723,9 @@ class Coverage:
                 for e in tr["ev"]:
                     inc(f"antecedent.code_point_width={e['tw']}_utf8len={e['blen']}")
                 self.samples.setdefault("sweep", {"sweep": tr["ev"][len(tr["ev"]) // 2:][:2]})
+                continue
+            if kind == "switch":
+                self.add_switch(tr)
                 continue
             multi = any(c["b"] > 1 or c["w"] != 1 for c in tr["chars"])
             key = tuple(c["cp"] for c in tr["chars"])
@@ -561,15 +756,61 @@ class Coverage:
                     if e["ctl"]:
                         inc("antecedent.encode_with_literal_shift_controls")
 
+    def add_switch(self, tr):
+        inc = self.inc
+        same = tr["same"]
+        views = tr["views"]
+        inc(f"switch.{same}.histories")
+        modes = sorted({v["mode"] for v in views})
+        for a, b in itertools.combinations(modes, 2):
+            inc(f"switch.{same}.readings_{a}+{b}")
+        widths = {sum(c["w"] for c in v["chars"]) for v in views}
+        if same == "bytes" and len(widths) > 1:
+            inc("antecedent.switch_same_bytes_differ_in_width_between_encodings")
+        if same == "bytes" and len({len(v["chars"]) for v in views}) > 1:
+            inc("antecedent.switch_same_bytes_differ_in_character_boundaries")
+        seen, asked = [], {}
+        cur = None
+        for e in tr["ev"]:
+            op = e["op"]
+            inc(f"switch.{same}.{op}")
+            if op == "setenc":
+                if e["enc"] in seen:
+                    inc("antecedent.switch_back_to_an_earlier_encoding")
+                seen.append(e["enc"])
+                cur = views[e["v"] - 1]
+                continue
+            if op == "width" and same == "bytes" and cur is not None:
+                o = [0]
+                for c in cur["chars"]:
+                    o.append(o[-1] + c["b"])
+                key = (o[e["i"]], o[e["j"]])
+                prev = asked.setdefault(key, (cur["enc"], e["rb"]))
+                if prev[0] != cur["enc"]:
+                    inc("antecedent.switch_same_byte_range_measured_under_two_encodings")
+                    self.nontriv.add(hash((tuple(tr["raw"]), key, cur["enc"])))
+            if op == "enc" and cur is not None and e["src"] == "str" and any(c["cp"] in DEC_SET for c in cur["chars"]):
+                inc(f"antecedent.switch_encode_dec_character_{'utf8' if cur['mode'] == 'utf8' else 'dec_special'}")
+        if same == "bytes" and "switch" not in self.samples and len(widths) > 1:
+            self.samples["switch"] = {"raw": tr["raw"], "readings": [{"enc": v["enc"], "mode": v["mode"], "cps": [c["cp"] for c in v["chars"]],
+                                                                      "width": sum(c["w"] for c in v["chars"])} for v in views],
+                                      "set_encoding_order": [e["enc"] for e in tr["ev"] if e["op"] == "setenc"],
+                                      "events": [e for e in tr["ev"] if e["op"] == "width" and e["i"] == 0][:3]}
+
     def finish(self, chk):
         chk.cov["clause_counts"].update(dict(sorted(self.counts.items())))
         chk.cov["distinct_nontrivial"] = len(self.nontriv)
         for need in ("antecedent.pos_wide_character_does_not_fit", "antecedent.trim_pad_left=1_pad_right=0", "antecedent.trim_pad_left=0_pad_right=1",
                      "antecedent.trim_pad_left=1_pad_right=1", "antecedent.encode_with_dec_character", "antecedent.within_double_byte=2",
-                     "antecedent.step_over_multi_unit_character", "antecedent.pos_with_zero_width_character", "cps.sweep.cp"):
+                     "antecedent.step_over_multi_unit_character", "antecedent.pos_with_zero_width_character", "cps.sweep.cp",
+                     "antecedent.switch_same_bytes_differ_in_width_between_encodings", "antecedent.switch_same_bytes_differ_in_character_boundaries",
+                     "antecedent.switch_back_to_an_earlier_encoding", "antecedent.switch_same_byte_range_measured_under_two_encodings",
+                     "switch.bytes.readings_narrow+utf8", "switch.bytes.readings_utf8+wide", "switch.bytes.readings_narrow+wide",
+                     "switch.str.readings_narrow+utf8", "antecedent.switch_encode_dec_character_utf8",
+                     "antecedent.switch_encode_dec_character_dec_special", "switch.bytes.trim", "switch.bytes.pos", "switch.bytes.step"):
             if not self.counts.get(need):
                 chk.vacuity.append(need)
-        for k in ("text", "enc", "sweep"):
+        for k in ("text", "enc", "sweep", "switch"):
             if k in self.samples:
                 chk.sample(self.samples[k])
 
@@ -583,7 +824,7 @@ def run(chk):
     cover = Coverage()
     totals = {"texts": tlc.TVResult(), "code_point_sweep": tlc.TVResult()}
     flush_at = 10 ** 9 if quick else 200000
-    tv_kw = {"batch_events": 24000 if quick else 25000, "jobs": 4 if quick else 8, "timeout": 2400}
+    tv_kw = {"batch_events": 25000 if quick else 25000, "jobs": 4 if quick else 8, "timeout": 2400}
 
     def collect(which, trs, fut):
         res = fut.result()
@@ -630,11 +871,18 @@ def run(chk):
     chk.cov["exhaustive"] = True
     chk.cov["bounds"] = {"exhaustive_text_length": 3 if quick else "3 (utf-8, 8 classes) / 4 (utf-8 7 classes, gbk, iso8859-1) / 5 (euc-jp, big5)",
                          "random_text_length": 5 if quick else 9, "sweep": "seeded sample + every width-table boundary" if quick else "all 1 112 064 scalar values",
-                         "model": "all texts of <= 3 (quick) / <= 5 (thorough) character classes x all boundary pairs x all columns / column ranges"}
+                         "model": "all texts of <= 3 (quick) / <= 5 (thorough) character classes x all boundary pairs x all columns / column ranges; "
+                                  "every text additionally re-read under a single-byte encoding (action SetEncoding)",
+                         "switch_histories": "byte strings of 1-3 (quick) / 1-4 (thorough) pieces (multi-byte characters of the alphabets, two-byte sequences "
+                                             "that are a character in UTF-8 and in EUC-JP/GBK/Big5, ASCII) read under up to 4 (quick) / 6 (thorough) of "
+                                             + ", ".join(SWITCH_ENCS) + "; every encoding but the last is set a second time"}
     chk.cov["rule"] = ("every text over the character classes of each encoding (ASCII, space, 2-byte narrow, 3-byte wide, zero width, DEC glyph, 4-byte wide; "
                        "double-byte with high / low trail byte; Latin-1) up to the bound x every boundary pair x every target column x every column range, "
                        "each call made on the str and on its encoded bytes; non-trivial = distinct (encoding, text, call, arguments) on a text with a "
-                       "multi-unit or non-single-width character, plus distinct DEC-character encodings")
+                       "multi-unit or non-single-width character, plus distinct DEC-character encodings, plus distinct (byte string, byte range, "
+                       "encoding) measured in a history in which the same range had been measured under another encoding before; switch histories: "
+                       "one process, one byte string (or str), urwid.set_encoding() between the calls, every call judged against the reading of the "
+                       "input under the encoding active at that point (state variable cur of StrUtilTrace)")
     chk.cov["trusted_base"] = ["TLC", "wcwidth package (the width table itself: column w of every character)", "Python codecs (per-character encoded bytes)",
                                "vf/props/c11.py call-through recorder (no comparison in Python)", "StrUtilOps.DecTable (VT100 special graphics set)"]
     chk.assumptions += [
@@ -646,6 +894,9 @@ def run(chk):
         "calls are made with offsets on character boundaries and 0 <= start_col < end_col <= width for trimming (what urwid's canvas code passes); "
         "offsets inside a character and invalid / truncated byte strings are exercised but only reported as DIVERGENCE (the property speaks of a string and its encoded form)",
         "U+25AE (urwid maps it to '_' of the alternate charset) is not a VT100 line-drawing character and is not demanded",
+        "switch histories: a byte string counts as a text under an encoding when the Python codec decodes it strictly, re-encodes it to the same "
+        "bytes character by character, no character is a control character and (double-byte / single-byte modes) every character is as many "
+        "columns wide as it has bytes; the single-byte readings use cp437 (every byte >= 0x20 printable) and iso8859-1",
     ]
 
 
@@ -654,8 +905,10 @@ def replay(chk, path):
         rp = json.load(f)["replay"]
     e0 = rp["event"]
     op = e0["op"]
-    with encoding(rp["enc"]):
-        if rp["kind"] == "cps":
+    with encoding("utf-8" if rp["kind"] == "switch" else rp["enc"]):
+        if rp["kind"] == "switch":
+            tr = switch_trace(rp["spec"])
+        elif rp["kind"] == "cps":
             tr = {"kind": "cps", "mode": "utf8", "enc": "utf-8", "chars": [], "ev": [cp_event(e0["cp"])]}
         elif rp["kind"] == "raw":
             trs = raw_traces(bytes(rp["raw"]), rp["mode"], rp["enc"])
@@ -680,5 +933,9 @@ def replay(chk, path):
     res = tlc.validate("StrUtilTrace", [tr], jobs=1, timeout=300)
     chk.add_tv("replay", res)
     handle(chk, [tr], res)
-    chk.sample(tr if rp["kind"] != "raw" else {"raw": tr["raw"], "ev": tr["ev"][:3]})
+    if rp["kind"] == "switch":
+        chk.sample({"spec": tr["spec"], "readings": [{"enc": v["enc"], "cps": [c["cp"] for c in v["chars"]]} for v in tr["views"]],
+                    "ev": tr["ev"][max(0, rp["at"] - 2):rp["at"]]})
+    else:
+        chk.sample(tr if rp["kind"] != "raw" else {"raw": tr["raw"], "ev": tr["ev"][:3]})
     return chk.finish()
